@@ -1083,6 +1083,37 @@ class FilesFamily(IcalFamily):
                                        f"timeline {after} time(s) after the second write, in the written one "
                                        f"{after_mem} time(s) (before: {before})"}
                 break
+            # the same path rewritten with a change that keeps the file's length (an event moved by an hour)
+            # and loaded again, all within one process and most likely one second: the second load must show
+            # the second file
+            movable = [i for i, it in enumerate(case["items"]) if it["kind"] == "static" and it.get("s") is not None
+                       and it.get("e") is not None and not (it.get("meta") or {}).get("allday")]
+            if movable:
+                i0 = movable[0]
+                def mk(shift):
+                    mm = MemoryTimeline()
+                    for j, it in enumerate(case["items"]):
+                        try:
+                            if it["kind"] == "static":
+                                mm.add(build_static(dict(it, s=it["s"] + shift, e=it["e"] + shift) if j == i0 else it))
+                            else:
+                                mm.add(build_pattern(it))
+                        except Exception:
+                            pass
+                    return mm
+                old = [case["items"][i0]["s"], case["items"][i0]["e"]]
+                new = [old[0] + 3600, old[1] + 3600]
+                with contextlib.redirect_stderr(io.StringIO()):
+                    timeline_to_file(mk(0), path)
+                    n_old = sum(1 for o in file_to_timeline(path)._static_intervals if [o.start, o.end] == old)
+                    n_new0 = sum(1 for o in file_to_timeline(path)._static_intervals if [o.start, o.end] == new)
+                    size0 = path.stat().st_size
+                    timeline_to_file(mk(3600), path)
+                    got = file_to_timeline(path)
+                n_new = sum(1 for o in got._static_intervals if [o.start, o.end] == new)
+                if n_old and path.stat().st_size == size0 and n_new != n_new0 + 1:
+                    return {"err": f"the file was rewritten with the event {old} moved to {new} (same length); loading "
+                                   f"it again shows the moved event {n_new} time(s), expected {n_new0 + 1}"}
             for r in items:
                 r.pop("_obj", None)
             return dict(items=items, slices=slices, reloaded=reloaded)
